@@ -53,7 +53,7 @@ Holds(c, e) == CASE c = "spurious_reject" -> CAccepted(e)
                  [] c = "getter_mismatch" -> CGetter(e)
                  [] c = "neighbour_changed" -> CNeighbours(e)
                  [] c = "bytes_mismatch" -> CBytes(e)
-Report(bad) == bad = {} \/ (PrintT(<<"FAIL", l, bad>>) /\ FALSE)
+Report(bad) == IF bad = {} THEN TRUE ELSE PrintT(<<"FAIL", l, bad>>) /\ FALSE
 SetEv == /\ IsEvent("set")
          /\ Cfg.bound /\ Cfg.cls \in DOMAIN Layout /\ Cfg.field \in DOMAIN Tbl.fields
          /\ Len(Ev.v) = NBytes(Fld.w) /\ ~TooLarge(Ev.v, Fld.w)          \* the harness offers representable values only
